@@ -2,6 +2,6 @@ CONSTANTS
   MemberSets <- MCMemberSets
   SharedSlot = FALSE
 SPECIFICATION MCSpec
-INVARIANTS Conforms EmitCases
+INVARIANTS Conforms EmitCases EmitMulti
 PROPERTY Termination
 CHECK_DEADLOCK FALSE
